@@ -82,6 +82,32 @@ func NumberString() *rapid.Generator[string] {
 		rapid.Custom(func(t *rapid.T) string {
 			return strconv.FormatFloat(rapid.Float64Range(-1e6, 1e6).Draw(t, "f"), byte(rapid.SampledFrom([]rune{'f', 'g', 'e'}).Draw(t, "fmt")), rapid.IntRange(-1, 6).Draw(t, "prec"), 64)
 		}),
+		// long decimal spellings: up to 30 significant digits, optional sign, point and exponent, so that the
+		// correctly rounded float64 differs from what naive digit accumulation gives (> 2^53, ties, many digits)
+		rapid.Custom(func(t *rapid.T) string {
+			n := rapid.IntRange(1, 30).Draw(t, "ndigits")
+			var b strings.Builder
+			b.WriteString(rapid.SampledFrom([]string{"", "", "", "-", "+"}).Draw(t, "sign"))
+			point := rapid.IntRange(-1, n).Draw(t, "point") // -1 or n: no point inside
+			for i := 0; i < n; i++ {
+				if i == point && i > 0 {
+					b.WriteByte('.')
+				}
+				lo := 0
+				if i == 0 {
+					lo = 1
+				}
+				b.WriteByte(byte('0' + rapid.IntRange(lo, 9).Draw(t, "d")))
+			}
+			if rapid.IntRange(0, 3).Draw(t, "exp") == 0 {
+				b.WriteString("e" + strconv.Itoa(rapid.IntRange(-30, 30).Draw(t, "e")))
+			}
+			return b.String()
+		}),
+		// any finite or non-finite float64 in its shortest round-trip spelling
+		rapid.Custom(func(t *rapid.T) string {
+			return strconv.FormatFloat(rapid.Float64().Draw(t, "anyf"), 'g', -1, 64)
+		}),
 	)
 }
 
